@@ -1040,7 +1040,9 @@ func runC11(c *Check) {
 				fromMempool := p.DeepContains(elem, func(t *Term) bool {
 					return t.Op == "index" && strings.Contains(t.Args[0].String(), "Executor).GetTxs(")
 				}, 2)
-				facts := g.NecessaryEdges(nodeSet([]*Node{a}))
+				// the facts on the way to the append, closed through own predicates that accepted
+				// (an "is not yet seen" helper stands for what all its accepting paths establish)
+				facts := g.FactsAt(nodeSet([]*Node{a}), 2)
 				notSeen := false
 				for _, f := range facts {
 					t := f.Cond
